@@ -21,6 +21,7 @@ line, so reports point at the code that is really there.  A helper all of
 whose uses were inlined is dropped from the model.
 """
 import ast
+import textwrap
 import copy
 import os
 
@@ -1531,6 +1532,184 @@ def map_back(trees):
                                 n.attr == new[0]:
                             n.attr = gone[0]
     return al
+
+
+# ----------------------------------------------------------------------
+# A computation moved from the callers into a pinned helper (the helper is
+# handed the ingredients and builds the value first thing) is moved back.
+
+def hoist_param_prologue(trees):
+    """A non-public function of the pinned tree whose body now begins by
+    re-binding one of its parameters from itself (`flags = self._build(flags)`
+    after canon_params; written `flags = self._build(events)` with the
+    parameter called `events`) has had a computation moved in from its
+    callers.  It is moved back: the statement goes, every call passes the
+    computed value.  Only where the pinned function does not start that way
+    itself, every call site is found, and the expression reads nothing but
+    parameters and self."""
+    pinned = load_pinned()['functions']
+    table = function_table(trees)
+    done = []
+    for q, (node, mname, cls) in sorted(table.items()):
+        pk = pinned.get(q)
+        if pk is None or not node.name.startswith('_') or \
+                node.name.startswith('__') or node.decorator_list:
+            continue
+        body = list(node.body)
+        if body and isinstance(body[0], ast.Expr) and isinstance(
+                body[0].value, ast.Constant) and isinstance(
+                    body[0].value.value, str):
+            body = body[1:]
+        if not body:
+            continue
+        st = body[0]
+        if not (isinstance(st, ast.Assign) and len(st.targets) == 1 and
+                isinstance(st.targets[0], ast.Name)):
+            continue
+        P = st.targets[0].id
+        params = [a.arg for a in node.args.args]
+        if node.args.vararg or node.args.kwarg:
+            continue
+        names = {n.id for n in ast.walk(st.value) if isinstance(n, ast.Name)}
+        Q = P
+        if P in params:
+            # `headers = self._prepare(headers, flags)`: an extracted helper
+            # applied to a parameter in place - the inliner's business, the
+            # function's contract is what it was
+            continue
+        if P not in params:
+            # the parameter was renamed for what is now passed: P is a
+            # parameter of the pinned function that is gone, Q the one
+            # parameter the pinned function does not have
+            try:
+                pt0 = ast.parse(textwrap.dedent(pk.get('src') or ''))
+                pparams = [a.arg for a in pt0.body[0].args.args]
+            except (SyntaxError, IndexError, AttributeError):
+                continue
+            newp = [p for p in params if p not in pparams]
+            if P not in pparams or len(newp) != 1 or \
+                    len(params) != len(pparams) or \
+                    params.index(newp[0]) != pparams.index(P):
+                continue
+            Q = newp[0]
+            uses = sum(1 for n in _own_walk(node) if isinstance(n, ast.Name)
+                       and n.id == Q)
+            inexpr = sum(1 for n in ast.walk(st.value)
+                         if isinstance(n, ast.Name) and n.id == Q)
+            if uses != inexpr or inexpr == 0:
+                continue
+        if Q not in names or not names <= set(params):
+            continue
+        # the pinned function must not begin like this itself
+        try:
+            pt = ast.parse(textwrap.dedent(pk.get('src') or ''))
+            pbody = [s for s in pt.body[0].body]
+            if pbody and isinstance(pbody[0], ast.Expr) and isinstance(
+                    pbody[0].value, ast.Constant):
+                pbody = pbody[1:]
+            if pbody and ast.unparse(pbody[0]) == ast.unparse(st):
+                continue
+        except (SyntaxError, IndexError):
+            continue
+        # P is not assigned again
+        if sum(1 for n in _own_walk(node) if isinstance(n, ast.Name) and
+               n.id == P and isinstance(n.ctx, ast.Store)) != 1:
+            continue
+        # call sites
+        idx = params.index(Q)
+        method = bool(cls) and params and params[0] in ('self', 'cls')
+        sites = []
+        ok = True
+        for t in trees.values():
+            for n in ast.walk(t):
+                if not isinstance(n, ast.Call):
+                    continue
+                f = n.func
+                if method and isinstance(f, ast.Attribute) and \
+                        f.attr == node.name:
+                    recv = f.value
+                    pos = idx - 1
+                elif not method and isinstance(f, ast.Name) and \
+                        f.id == node.name:
+                    recv = None
+                    pos = idx
+                else:
+                    continue
+                if any(isinstance(a, ast.Starred) for a in n.args) or \
+                        any(k.arg is None for k in n.keywords):
+                    ok = False
+                    continue
+                if pos < len(n.args):
+                    sites.append((n, 'pos', pos, recv))
+                else:
+                    kw = [k for k in n.keywords if k.arg == Q]
+                    if len(kw) != 1:
+                        ok = False
+                        continue
+                    sites.append((n, 'kw', kw[0], recv))
+        # other references to the function (passed around): give up
+        refs = sum(1 for t in trees.values() for n in ast.walk(t)
+                   if (isinstance(n, ast.Attribute) and n.attr == node.name)
+                   or (isinstance(n, ast.Name) and n.id == node.name))
+        if not ok or not sites or refs != len(sites):
+            continue
+        other = [p for p in params if p != Q]
+        # the expression may read other parameters only if the call passes
+        # simple expressions for them (evaluated once more in the caller)
+        for call, how, where, recv in sites:
+            mapping = {}
+            for i, p in enumerate(params):
+                j = i - 1 if method else i
+                if method and i == 0:
+                    mapping[p] = recv
+                    continue
+                if j < len(call.args):
+                    mapping[p] = call.args[j]
+                else:
+                    kw = [k.value for k in call.keywords if k.arg == p]
+                    if kw:
+                        mapping[p] = kw[0]
+            if any(p in names and (p not in mapping or not _simple(
+                    mapping[p])) for p in other):
+                ok = False
+        if not ok:
+            continue
+        for call, how, where, recv in sites:
+            mapping = {}
+            for i, p in enumerate(params):
+                j = i - 1 if method else i
+                if method and i == 0:
+                    mapping[p] = recv
+                elif j < len(call.args):
+                    mapping[p] = call.args[j]
+                else:
+                    kw = [k.value for k in call.keywords if k.arg == p]
+                    if kw:
+                        mapping[p] = kw[0]
+            new = _Subst(mapping, {}).visit(copy.deepcopy(st.value))
+            ast.copy_location(new, call)
+            ast.fix_missing_locations(new)
+            fl = getattr(call, '_file', None)
+            for x in ast.walk(new):
+                if getattr(x, '_file', None) is None:
+                    _setfile(x, fl)
+            if how == 'pos':
+                call.args[where] = new
+            else:
+                where.value = new
+        node.body.remove(st)
+        if Q != P:
+            for a0 in node.args.args:
+                if a0.arg == Q:
+                    a0.arg = P
+            for call, how, where, recv in sites:
+                if how == 'kw':
+                    where.arg = P
+        if not node.body:
+            node.body.append(_pass(node))
+        done.append(q)
+    return done
+
 
 
 def demote_changed(trees, al, keep_whole=frozenset()):
